@@ -476,6 +476,8 @@ pub fn gen(rng: &mut Rng, tier: Tier, out: &mut Vec<String>) {
         let (w, h) = match rng.below(60) {
             0 => (257 + rng.below(300), 1 + rng.below(3)),
             1 => (1 + rng.below(3), 257 + rng.below(300)),
+            // wider than 2048 / 4096 pixels (row staging buffers of a fixed size)
+            2 => (2049 + rng.below(3000), 2),
             _ => (w, h),
         };
         let s = w + rng.below(4);
